@@ -4,6 +4,8 @@ from ..gen import opgen, schemair as S
 from ..mon import exec_mon, instr_mon, sched
 from ..ref import refexec
 
+THOROUGH_SCALE = 5.0   # 16 shards; see DESIGN.md section 7
+
 RULE = (
     "mutation operations with 1-5 top-level fields (nested deferred sub-fields, lists, ResolverError "
     "at any position) are generated for schemas with a mutation root; each runs under all six "
@@ -21,8 +23,8 @@ ASSUMPTIONS = ["events are ordered by a logical clock taken under a lock at the 
 def run(ctx):
     rng = ctx.rng("cases")
     quick = ctx.tier == "quick"
-    max_exh = 30 if quick else 300
-    n_samples = 5 if quick else 40
+    max_exh = 30 if quick else 200
+    n_samples = 5 if quick else 24
     log = sched.EventLog()
     for ci in range(ctx.n(7)):
         case = exec_mon.DualCase(rng, "c09:%d:%d:%d" % (ctx.seed, ctx.shard, ci), log=log,
